@@ -57,7 +57,7 @@ def check(prop, tier):
         for ex in v["examples"][:3]:
             violations.append({"property": v["property"], "kind": v["kind"], "count": v["count"], "detail": ex})
     # B
-    chunks, events = (16, 600) if tier == "quick" else (48, 2500)
+    chunks, events = (16, 1500) if tier == "quick" else (48, 4000)
     modes = ["game", "claims"] if prop == "C10" else ["claims", "game"]
     files_all, dirs = [], []
     for i, mode in enumerate(modes):
